@@ -107,6 +107,14 @@ def statistics_values(c, n=3, N=9):
     c.eq('ci_width', s.ci_width(p), up - lo)
     med = s.median()
     c.holds('lower_le_median_le_upper', bool(np.all(lo <= med + 1e-12) and np.all(med <= up + 1e-12)))
+    # machine arithmetic (outside the deductive part, where reals are exact): chains far from the origin - the spread statistics are those of the
+    # centred chain, the location statistics shift with the chain (bounded metamorphic check)
+    for off in (1e6, -3e8):
+        t = Samples(A + off, cuqi.geometry.Continuous1D(n))
+        c.eq(f'offset={off:g}:variance_is_that_of_the_centred_chain', t.variance(), np.var(A, axis=-1), tol=1e-5)
+        c.eq(f'offset={off:g}:std_is_that_of_the_centred_chain', t.std(), np.std(A, axis=-1), tol=1e-5)
+        c.eq(f'offset={off:g}:mean_shifts_with_the_chain', t.mean() - off, np.mean(A, axis=-1), tol=1e-5)
+        c.eq(f'offset={off:g}:ci_width_is_that_of_the_centred_chain', t.ci_width(p), s.ci_width(p), tol=1e-5)
 
 
 def funvals_statistics(c, n_steps=2, N=3):
